@@ -22,7 +22,7 @@ RULE = ("pure cases = candidate names: all strings up to length 3 (quick) / 4 (t
         "with partition/region/account pools; engine cases = accepted names run through CreateStateMachine + StartExecution (STANDARD, EXPRESS, restart, backstop). "
         "Non-trivial = the name contains '.', '-', '_' or an ARN-significant/forbidden character, or has length >= 79. Distinct by the name(s).")
 
-FORBIDDEN = " <>{}[]?*\"#%\\^|~`$&,;:/"
+FORBIDDEN = " <>{}[]?*\"#%\\^|~`$&,;:/\n\t\x7f"        # the API reference also forbids the control characters (U+0000-001F, U+007F-009F): three representatives
 SAFE = "aB09.-_"
 ALPHABET = SAFE + FORBIDDEN
 REGIONS = ["local", "us-east-1", "eu-west-2"]
@@ -48,7 +48,7 @@ def mods():
 
 
 def expected_valid(name):
-    """The documented rule: 1..80 characters, none of the forbidden characters (control characters are outside the alphabet)."""
+    """The documented rule: 1..80 characters, none of the forbidden characters (punctuation listed in the API reference and control characters)."""
     return isinstance(name, str) and 1 <= len(name) <= 80 and not any(c in FORBIDDEN for c in name)
 
 
